@@ -44,6 +44,9 @@ type Hooks struct {
 	// lit is the function literal whose (inlined) frame is returning, nil for
 	// the outermost frame.
 	PreReturn func(ret *ast.ReturnStmt, lit *ast.FuncLit, s State) State
+	// Conversions: also call Atom for type conversions T(x) (rules that care
+	// about unsafe.Pointer casts).
+	Conversions bool
 	// Eval is called for expressions that are evaluated but are neither a
 	// condition nor part of a call/assignment: a switch tag, a range operand.
 	Eval func(e ast.Expr, s State)
@@ -630,6 +633,9 @@ func (in *Interp) expr(e ast.Expr, s set) set {
 			if tv, ok := in.H.Info.Types[x.Fun]; ok && tv.IsType() {
 				for _, a := range x.Args {
 					s = in.expr(a, s)
+				}
+				if in.H.Conversions {
+					return in.atom(x, s)
 				}
 				return s
 			}
